@@ -16,7 +16,7 @@ from verifkit.mon.streams import Hostile
 
 ID = "C11"
 RULE = ("event models with lower / upper / two-sided / absent / default limits per state, magnitudes 1-3, initial states inside the limits "
-        "(often on a boundary), small populations; exact and tau-leap with adaptive tau, large fixed pre_tau and epsilon in {0.01..0.5}; "
+        "(often on a boundary), small populations; a quarter of the models with explicit ODE terms (decay, constant in-/outflow) beside the events; exact and tau-leap with adaptive tau, large fixed pre_tau and epsilon in {0.01..0.5}; "
         "ordinary and hostile streams; raw paths (scalar horizon) and gridded output. Non-trivial: a run with at least one rejected proposal; "
         "distinct by hash of model + configuration")
 ASSUMPTIONS = ["limits are those of the definition: (lo, hi) tuples as declared, (0, None) for a state declared by name only",
@@ -38,19 +38,22 @@ def floors(tier):
             "counter:tau_rejections": 100, "counter:exact_rejections": 30, "counter:rejected_lower": 100, "counter:rejected_upper": 30,
             "counter:states_range_checked": 20000, "counter:gridded_rows_checked": 1000, "counter:paths_stopped_early": 30,
             "class:limit-upper": 30, "class:limit-two": 30, "class:limit-absent": 30, "class:limit-lower": 30,
-            "class:start-on-boundary": 30, "reach:_checkJump": 5000}
+            "class:start-on-boundary": 30, "class:events+ode-drift": 40, "counter:drift_steps_without_event": 200, "reach:_checkJump": 5000}
 
 
 from verifkit.props.c04 import setup_shard, teardown_shard  # noqa: E402,F401  (ASan kernel injection)
 
 
 def run_case(rng, idx, tier, lane, ctx):
-    spec = GE.gen_events(rng, limits="mixed", max_mag=3)
+    drift = rng.random() < 0.25      # a quarter of the models also carry explicit ODE terms (deterministic drift inside tau-leap steps)
+    spec = GE.gen_events(rng, limits="mixed", max_mag=3, drift=drift)
     theta = GE.param_values(rng, spec)
     x0 = GE.initial_state(rng, spec, hi=15, boundary_prob=0.25)
     ref, V = S.numeric_V(spec, theta)
     horizon = S.choose_horizon(rng, ref, x0, theta, targets=(10, 40, 120))
     cls = G.classes(spec)
+    if drift:
+        cls.append("events+ode-drift")
     for l in spec["limits"]:
         lo, hi = l
         cls.append("limit-" + ("absent" if lo is None and hi is None else "upper" if lo is None else
@@ -58,7 +61,7 @@ def run_case(rng, idx, tier, lane, ctx):
     if any((l[0] is not None and x == l[0]) or (l[1] is not None and x == l[1]) for x, l in zip(x0, spec["limits"])):
         cls.append("start-on-boundary")
     cls = sorted(set(cls))
-    counters = {"tau_rejections": 0, "exact_rejections": 0, "states_range_checked": 0, "gridded_rows_checked": 0, "paths_stopped_early": 0}
+    counters = {"tau_rejections": 0, "exact_rejections": 0, "states_range_checked": 0, "gridded_rows_checked": 0, "paths_stopped_early": 0, "drift_steps_without_event": 0}
     wit = []
     configs = []
     nontriv = False
@@ -85,7 +88,7 @@ def run_case(rng, idx, tier, lane, ctx):
                 npts = rng.randint(3, 12)
                 grid = np.linspace(0.0, horizon, npts) if rng.random() < 0.5 else np.array([0.0] + sorted(rng.uniform(0, horizon) for _ in range(npts - 1)))
             hostile = Hostile(np_seed(rng), prob=rng.choice([0.05, 0.1, 0.2])) if lane == "hostile" else None
-            r = S.run_config(m, spec, V, x0, horizon, cfg, hostile=hostile, grid=grid)
+            r = S.run_config(m, spec, V, x0, horizon, cfg, hostile=hostile, grid=grid, raises="inconclusive", drift=drift)
             for k, v in r["counters"].items():
                 counters[k] = counters.get(k, 0) + v
             if r["inconclusive"]:
@@ -98,6 +101,8 @@ def run_case(rng, idx, tier, lane, ctx):
                 nontriv = True
             for st, path in zip(r["stats"], probe.paths):
                 counters["states_range_checked"] += st["steps"] + 1
+                if drift and not exact:
+                    counters["drift_steps_without_event"] += st["zero_steps"]
                 if float(path[2][-1]) < horizon:
                     counters["paths_stopped_early"] += 1
             if gridded and r["out"] is not None:
@@ -122,7 +127,3 @@ def run_case(rng, idx, tier, lane, ctx):
         res["witnesses"] = wit[:6]
     return res
 
-
-def classify(w):
-    from verifkit.props import c04
-    return c04.classify(w)
